@@ -223,6 +223,77 @@ def admit_release(d0: int, kind: int) -> bool:
     return ok()
 
 
+class _StubWork:
+    """A work as the executor sees it: offers descriptors of interest, can be shut down. What it offers is chosen by the solver."""
+
+    def __init__(self, offers):
+        self.offers = offers
+        self.shut = 0
+
+    async def get_events(self):
+        return dict(self.offers)
+
+    def is_inactive(self):
+        return False
+
+    def shutdown(self):
+        self.shut += 1
+
+
+def registry(f0: int, m0: int, f1: int, m1: int, f2: int, first: int) -> bool:
+    """
+    pre: 0 <= f0 <= 2 and 0 <= f1 <= 2 and 0 <= f2 <= 2
+    pre: 1 <= m0 <= 3 and 1 <= m1 <= 3
+    pre: 0 <= first <= 1
+    post: _
+    """
+    begin()
+    # One step of the worker's descriptor bookkeeping from a small arbitrary state: two works alive at once; each offers descriptors out
+    # of {-1 (socket already closed but still reported), 7, 8}. Threadless._update_work_events documents that it tolerates -1 and a
+    # number that is still registered for another work (KeyError from the selector). Whatever was offered, ending both works (in either
+    # order) shuts each down exactly once, raises nothing, and leaves nothing registered.
+    pool = [-1, 7, 8]
+    fa = fb = fc = None
+    for k in range(3):
+        if f0 == k:
+            fa = pool[k]
+        if f1 == k:
+            fb = pool[k]
+        if f2 == k:
+            fc = pool[k]
+    for k in (1, 2, 3):
+        if m0 == k:
+            m0 = k
+        if m1 == k:
+            m1 = k
+    with concrete():
+        env = envkit.new_env()
+        xk = envkit.Executor(scen.FLAGS['forward'], env)
+    ex = xk.ex
+    wa, wb = _StubWork({fa: m0, fc: m1}), _StubWork({fb: m1})
+    ex.works[101] = wa
+    ex.works[102] = wb
+    try:
+        run(ex._update_work_events(101))
+        run(ex._update_work_events(102))
+        run(ex._update_work_events(101))
+    except Exception as e:
+        return fail('exception while registering the descriptors two works offer', exc=repr(e), offers=repr((wa.offers, wb.offers)))
+    order = [101, 102] if first == 0 else [102, 101]
+    for wid in order:
+        try:
+            ex._cleanup(wid)
+        except Exception as e:
+            return fail('exception while a work is being released: it is never shut down and stays in the worker\'s bookkeeping',
+                        exc=repr(e), work=wid, offers=repr((wa.offers, wb.offers)))
+    if wa.shut != 1 or wb.shut != 1:
+        return fail('work not shut down exactly once', shut=repr((wa.shut, wb.shut)))
+    if ex.works or ex.registered_events_by_work_ids or ex.selector.map:
+        return fail('something stayed registered after both works ended', works=repr(list(ex.works)),
+                    registered=repr(ex.registered_events_by_work_ids), selector=repr(list(ex.selector.map)))
+    return ok()
+
+
 def obligations(tier):
     obs = []
     T = 400
@@ -250,12 +321,14 @@ def obligations(tier):
                             'cfg': {'role': role, 'abort_at': 99, 'abort_side': 'client', 'abort_kind': 'eof', 'connect': conn, 'repeat': True},
                             'timeout': T})
     obs.append({'name': 'admit_release.remote_tls', 'fn': 'admit_release', 'cfg': {}, 'timeout': T})
+    obs.append({'name': 'registry.two_works', 'fn': 'registry', 'cfg': {}, 'timeout': 600, 'group': 'registry'})
     return obs
 
 
 META = {
     'bounds': {
-        'quick': 'one connection at a time on a real executor; scripts: forward proxy with two keep-alive requests, CONNECT tunnel with data '
+        'quick': 'one step of the descriptor bookkeeping (Threadless._update_work_events + _cleanup) with two works alive at once, each offering descriptors chosen by the solver from {-1, 7, 8} with symbolic masks, released in either order (all 486 combinations); otherwise '
+                 'one connection at a time on a real executor; scripts: forward proxy with two keep-alive requests, CONNECT tunnel with data '
                  'both ways, web route with two requests, web 404, reverse proxy, garbage, a request (first / follow-up) rejected by a proxy plugin after the '
                  'upstream connection was made; every prefix of each script followed by an abort '
                  'on the client or upstream side in {EOF, reset, EPIPE on send, (EIO, timeout at steps 1-2)}; connect refusal / timeout / '
